@@ -5,7 +5,8 @@
 (*   {"ev":"group","decls":[{"m":..,"h":[..],"p":[..],"r":"d1","g":"g1"},...]}              *)
 (*        a configuration: the declared endpoints (a SET - the order is in the out events)   *)
 (*   {"ev":"req","m":..,"h":[..],"p":[..]}      a request against the current configuration  *)
-(*   {"ev":"out","ord":[2,1,3],"sel":[{"r":..,"norm":..,"params":[[n,v],..]},..],"dsel":[..]}*)
+(*   {"ev":"out","ord":[2,1,3],"sel":[{"r":..,"norm":..,"params":[[n,v],..]},..],"dsel":[..],*)
+(*    "lk":{"match":b,"norm":..,"params":[..]}}                                               *)
 (*        what the dispatcher selected for the current request when the endpoints were       *)
 (*        declared in the order ord                                                          *)
 (* An out event is a step of the specification iff EndpointPolicyP accepts the outcome      *)
@@ -28,7 +29,8 @@ Consume(name) == l < TraceLen /\ Ev.ev = name /\ l' = l + 1
 
 SeqSet(s) == {s[i] : i \in 1..Len(s)}
 SelOf(s)  == {[r |-> x.r, norm |-> x.norm, params |-> {<<q[1], q[2]>> : q \in SeqSet(x.params)}] : x \in SeqSet(s)}
-OutOf(e)  == [sel |-> SelOf(e.sel), dsel |-> SelOf(e.dsel)]
+OutOf(e)  == [sel |-> SelOf(e.sel), dsel |-> SelOf(e.dsel),
+              lk |-> [match |-> e.lk.match, norm |-> e.lk.norm, params |-> {<<q[1], q[2]>> : q \in SeqSet(e.lk.params)}]]
 
 TInit == l = 1 /\ D = {} /\ rq = NoOut /\ first = NoOut
 
